@@ -72,7 +72,7 @@ def run_graph(ctx, models, n_orders=3, repeat=3, label="models", order_repeat=1)
     return out
 
 
-def coq_spec_check(ctx, results, report=True):
+def coq_spec_check(ctx, results, report=True, what="weights"):
     """The theorem of Proofs/DagWeights.v says: if dag_check holds for the model's graph and weight assignment
     succeeds, every relation node carries Spec/GraphWeights.spec_weights — for every start order.  Here the
     extracted specification is evaluated (op 502) and compared with what the IMPLEMENTATION stored, per order:
@@ -88,11 +88,16 @@ def coq_spec_check(ctx, results, report=True):
             ctx.count("theorem_dag_not_applicable")
             continue
         ctx.count("theorem_dag_applicable")
-        want = {T(x[0]): dict((T(k), v) for k, v in x[1]) for x in sp[1]}
+        if what == "weights":
+            want = {T(x[0]): dict((T(k), v) for k, v in x[1]) for x in sp[1]}
+            read = lambda g, nid: dict(g["nodes"].get(nid, {}).get("weights", []))
+        else:
+            want = {T(x[0]): sorted(set(T(t) for t in x[2])) for x in sp[1]}
+            read = lambda g, nid: sorted(set(g["nodes"].get(nid, {}).get("wild", [])))
         for (o, a, b) in r["ordered"]:
             if b is not None and b[0] == "ok":
                 for nid, w in want.items():
-                    got = dict(b[1]["nodes"].get(nid, {}).get("weights", []))
+                    got = read(b[1], nid)
                     if got != w:
                         raise RuntimeError("the extracted model contradicts the theorem dag_weights on %r node %s: %r vs %r"
                                            % (r["m"], nid, got, w))
@@ -101,12 +106,13 @@ def coq_spec_check(ctx, results, report=True):
                 continue
             ctx.count("theorem_dag_orders_compared")
             for nid, w in want.items():
-                got = dict(a[1]["nodes"].get(nid, {}).get("weights", []))
+                got = read(a[1], nid)
                 if got != w and report:
-                    ctx.violation("weights-differ-from-proved-spec",
-                                  {"model": r["m"], "order": o, "node": nid, "impl_weights": got, "spec_weights": w,
-                                   "why": "on a model without cycles the implementation stores weights other than Spec/GraphWeights.spec_weights, "
-                                          "which Model/WWeights.assign_weights is proved to compute for every start order"})
+                    ctx.violation(what + "-differ-from-proved-spec",
+                                  {"model": r["m"], "order": o, "node": nid, "impl": got, "spec": w,
+                                   "why": "on a model without cycles the implementation stores " + what + " other than Spec/GraphWeights."
+                                          + ("spec_weights" if what == "weights" else "spec_wildcards (= the reachable public types)")
+                                          + ", which Model/WWeights.assign_weights is proved to compute for every start order"})
                     break
 
 
